@@ -2,6 +2,7 @@ package util
 
 import (
 	"github.com/pkg/errors"
+	"io"
 	"sync"
 	"time"
 )
@@ -31,6 +32,7 @@ type InQueue struct {
 	queueMutex     sync.Mutex // Synchronization mutex for accessing the queue
 	queueHasData   bool       // Boolean specifiying if there's any data in the queue
 	queueNotifiers []func()   // A list of waiters to notify when the queue has data
+	closed         bool       // Set by Close: nothing will be appended any more, waiting readers get io.EOF
 	readDeadline   time.Time
 }
 
@@ -71,6 +73,10 @@ func (q *InQueue) waitNonEmtpyQueue() error {
 		q.queueMutex.Unlock()
 		return nil
 	}
+	if q.closed {
+		q.queueMutex.Unlock()
+		return io.EOF
+	}
 
 	// Buffered: the notifier runs while queueMutex is held and must never block, even when the
 	// waiter has already given up because of a deadline
@@ -85,16 +91,38 @@ func (q *InQueue) waitNonEmtpyQueue() error {
 		select {
 		case <-wait:
 		}
-		return nil
+		return q.endOfData()
 	} else {
 		// Wait for the notification that the queue has been filled
 		select {
 		case <-time.After(q.readDeadline.Sub(time.Now())):
 			return ErrDeadlineExceeded
 		case <-wait:
-			return nil
+			return q.endOfData()
 		}
 	}
+}
+
+// endOfData tells a reader which has been woken up if that was because the queue got closed while it was empty
+func (q *InQueue) endOfData() error {
+	q.queueMutex.Lock()
+	defer q.queueMutex.Unlock()
+	if q.closed && !q.queueHasData {
+		return io.EOF
+	}
+	return nil
+}
+
+// Close wakes up the readers which wait for data: the connection this queue belongs to is gone and nothing will
+// be appended any more. What is in the queue already can still be read.
+func (q *InQueue) Close() {
+	q.queueMutex.Lock()
+	q.closed = true
+	for _, f := range q.queueNotifiers {
+		f()
+	}
+	q.queueNotifiers = q.queueNotifiers[0:0]
+	q.queueMutex.Unlock()
 }
 
 func (q *InQueue) Read(p []byte) (n int, err error) {
